@@ -155,14 +155,18 @@ fn parse_source_square(game: &Game, src: &str, dst: Square) -> Result<Square, Pa
 
     let ambiguity_resolution = parse_ambiguity_resolution(&src_chars)?;
 
-    let matching_source_squares: Vec<Square> = piece_moves
+    // No piece letter, so this is a pawn move with a source hint (the 'e' in 'exd5'): only pawns
+    // qualify, and the promotions of one pawn count as a single source square.
+    let matching_source_squares: HashSet<Square> = piece_moves
         .into_iter()
-        .filter(|&(_, mv)| mv.dst() == dst && ambiguity_resolution.satisfied_by(mv))
+        .filter(|&(piece, mv)| {
+            piece == PieceKind::Pawn && mv.dst() == dst && ambiguity_resolution.satisfied_by(mv)
+        })
         .map(|(_, mv)| mv.src())
         .collect();
 
     assert_eq!(matching_source_squares.len(), 1);
-    Ok(*matching_source_squares.first().unwrap())
+    Ok(*matching_source_squares.iter().next().unwrap())
 }
 
 fn parse_destination_square(sq: &str) -> Result<Square, ParseError> {
